@@ -266,6 +266,86 @@ def run_tiny(ctx):
                              labels=['tiny-fragments', 'recv=' + reception])
 
 
+def run_sequences(ctx, thorough=False):
+    """Several messages in a row on ONE association, delivered through the real provider loop and state machine
+    (vf/simnet.py, acceptor in Sta6): the reassembly state must not leak from one message into the next.  Each
+    message is file-backed (C-STORE on a store_in_file class), in-memory with data (C-FIND-RQ), or without data
+    set (C-ECHO-RQ); PDV groupings: one per PDU / everything in one PDU / pairs."""
+    import itertools
+    from .. import simnet, convs
+    from pynetdicom2 import applicationentity, asceprovider
+    from pydicom import uid
+    FIND = '1.2.840.10008.5.1.4.1.2.1.1'
+    kinds = ('file', 'mem', 'none')
+    ctxs = {1: asceprovider.PContextDef(1, uid.UID(convs.VERIF_UID), uid.UID(convs.IMPLICIT)),
+            3: asceprovider.PContextDef(3, uid.UID(SOP), uid.UID(convs.IMPLICIT)),
+            5: asceprovider.PContextDef(5, uid.UID(FIND), uid.UID(convs.IMPLICIT))}
+    lengths = (2, 3, 4) if thorough else (2, 3)
+    for n in lengths:
+        for combo in itertools.product(kinds, repeat=n):
+            for gmode in (0, 1, 2):
+                msgs = []
+                script = [{'k': 'seg', 'data': refpdu.enc_pdu(convs.RQ_SPEC), 'eager': False},
+                          {'k': 'user', 'prim': convs.user_prim({'pdu': convs.AC_SPEC})}]
+                for i, kind in enumerate(combo):
+                    if kind == 'file':
+                        fields = {0x0002: SOP, 0x0100: 0x0001, 0x0110: i + 1, 0x0700: 0, 0x0800: 1,
+                                  0x1000: '1.2.826.0.1.3680043.9.7.%d' % (i + 1)}
+                        data, pc = dg.patterned(150 + 37 * i, i), 3
+                    elif kind == 'mem':
+                        fields = {0x0002: FIND, 0x0100: 0x0020, 0x0110: i + 1, 0x0700: 0, 0x0800: 1}
+                        data, pc = dg.patterned(90 + 11 * i, 7 + i), 5
+                    else:
+                        fields = {0x0002: convs.VERIF_UID, 0x0100: 0x0030, 0x0110: i + 1, 0x0800: 0x0101}
+                        data, pc = None, 1
+                    frags = dg.ref_fragments(refcmd.encode(fields), data, 64, pc)
+                    if gmode == 0:
+                        groups = [[f] for f in frags]
+                    elif gmode == 1:
+                        groups = [frags]
+                    else:
+                        groups = [frags[j:j + 2] for j in range(0, len(frags), 2)]
+                    for grp in groups:
+                        script.append({'k': 'seg', 'data': refpdu.enc_pdu({'t': 4, 'r': 0, 'pdvs': grp}), 'eager': gmode == 2})
+                    msgs.append((kind, fields, data, pc))
+                case = {'sequence': list(combo), 'grouping': gmode}
+                ae = applicationentity.ClientAE('VERIF')
+                sim = simnet.run_scenario('acceptor', script, store_in_file=frozenset([SOP]), get_file_cb=ae.get_file,
+                                          accepted_contexts=ctxs)
+                ctx.case(('seq', combo, gmode), True, labels=['sequence', 'len=%d' % n, 'grouping=%d' % gmode],
+                         sample={'sequence': combo, 'grouping': gmode})
+                if sim.outcome[0] != 'returned':
+                    ctx.fail('C07:sequence:loop-%s' % sim.outcome[0], 'sequence %r: provider loop %r' % (combo, sim.outcome), case)
+                    continue
+                inds = [i for i in sim.indications() if isinstance(i, tuple)]
+                others = [getattr(i, 'pdu_type', None) for i in sim.indications() if not isinstance(i, tuple)]
+                if len(inds) != len(msgs) or others != [1]:
+                    ctx.fail('C07:sequence:delivery', 'sequence %r (grouping %d): %d of %d messages delivered, other '
+                             'indications %r' % (combo, gmode, len(inds), len(msgs), others), case)
+                    continue
+                for i, ((msg, pc_id), (kind, fields, data, pc)) in enumerate(zip(inds, msgs)):
+                    got = msg.data_set
+                    if got is not None and not isinstance(got, bytes):
+                        try:
+                            content = got.read()
+                            got.close()
+                        except Exception as exc:
+                            ctx.fail('C07:sequence:file', 'message %d of %r: file object unusable: %r' % (i + 1, combo, exc), case)
+                            break
+                        g_, e_, vr, ln, val = struct.unpack('<HH2sHI', content[132:144])
+                        got = content[144 + val:]
+                        was_file = True
+                    else:
+                        was_file = False
+                    if pc_id != pc or msg.command_field != fields[0x0100] or (got or None) != (data or None) or \
+                            was_file != (kind == 'file'):
+                        ctx.fail('C07:sequence:content', 'message %d of %r (grouping %d): context %r, command %04X, %s bytes '
+                                 '(file-backed=%s); sent context %d, command %04X, %s bytes as %s'
+                                 % (i + 1, combo, gmode, pc_id, msg.command_field or 0, len(got) if got else 0, was_file,
+                                    pc, fields[0x0100], len(data) if data else 0, kind), case)
+                        break
+
+
 @st.composite
 def random_case(draw):
     cf = draw(st.sampled_from(dg.ALL_CF + [1] * 20))
@@ -309,25 +389,34 @@ def run(ctx):
     ctx.rule = ('messages of all 23 command fields, command sets and fragments produced by the reference '
                 'encoder (a quarter by the library), every composition of the fragment list into P-DATA-TF PDUs '
                 'for lists up to the bound (2^(n-1) groupings each), Hypothesis-drawn groupings for longer lists; '
-                'in-memory, temp-file and directory-backed reception; genuine data sets in 3 transfer syntaxes; '
+                'in-memory, temp-file and directory-backed reception; genuine data sets in 3 transfer syntaxes; sequences of 2-3 (thorough 4) messages of mixed kind on one '
+                'association through the real provider loop; '
                 'non-trivial = >=3 fragments and a grouping that is neither all-singletons nor one block; '
                 'distinct by (message, M, L, grouping, reception)')
     ctx.assumptions = ['fragments of one message only per PDU sequence (statement scope)',
                        'file-backed reception applies to messages that carry Affected SOP Class/Instance UIDs']
-    maxfrag = 12 if ctx.thorough else 9
+    maxfrag = 14 if ctx.thorough else 9
     total = 23 * (36 if ctx.thorough else 9)
     idx = list(range(total))
     parallel(ctx, run_exhaustive, [{'indices': idx[i::16], 'maxfrag': maxfrag} for i in range(16)])
     run_real(ctx)
     run_tiny(ctx)
+    run_sequences(ctx, ctx.thorough)
     if ctx.thorough:
-        parallel(ctx, shard_random, [{'n': 1500} for _ in range(16)])
+        parallel(ctx, shard_random, [{'n': 5000} for _ in range(16)])
     else:
         run_random(ctx, 500)
 
 
 def replay(case):
     warnings.simplefilter('ignore')
+    if 'sequence' in case:
+        from ..common import Ctx
+        sub = Ctx('C07', 'thorough', 1)
+        run_sequences(sub, True)
+        for key, ent in sorted(sub.failures.items()):
+            raise Violation(key, ent['what'], ent['case'])
+        return
     groups = [tuple(g) for g in case['groups']] if case['groups'] else None
     run_case(case['cf'], case['fields'], case['data'], case['M'], case['pc_id'], groups,
              case['reception'], case['ts'], case.get('frag_source', 'ref'), case.get('real_ds', False))
